@@ -786,3 +786,29 @@ Proof.
   - exists s. split; [reflexivity|]. vm_compute in E. injection E as <-. vm_compute. reflexivity.
   - vm_compute in E. discriminate.
 Qed.
+
+(* ------------------------------------------------------------------ robs_ok is what the model guarantees *)
+Lemma subset_prefix a b : prefix a b -> subset a b = true.
+Proof.
+  intros [r ->]. unfold subset. apply forallb_forall. intros x Hx.
+  apply existsb_exists. exists x. split; [apply in_or_app; now left | apply Nat.eqb_refl].
+Qed.
+
+(* for any two finished lookups of a reachable registry state there are registration
+   sequences C1, C2 explaining what they saw, and the observation predicate holds of them *)
+Theorem robs_ok_of_model c s :
+  rreachable c s ->
+  forall t1 t2 k1 k2, In k1 (r_done (rthr s t1)) -> In k2 (r_done (rthr s t2)) ->
+  exists C1 C2, l_seen k1 = contents c C1 /\ l_seen k2 = contents c C2 /\
+    robs_ok [(l_pre k1, C1); (l_pre k2, C2)] = true.
+Proof.
+  intros R t1 t2 k1 k2 H1 H2. pose proof (rinv_reachable c s R) as I.
+  destruct (R_done c s I t1 k1 H1) as (C1 & E1 & Q1 & P1).
+  destruct (R_done c s I t2 k2 H2) as (C2 & E2 & Q2 & P2).
+  exists C1, C2. split; [exact E1|]. split; [exact E2|].
+  unfold robs_ok. cbn [forallb fst snd].
+  rewrite (subset_prefix _ _ Q1), (subset_prefix _ _ Q2), (subset_prefix _ _ (prefix_refl C1)),
+    (subset_prefix _ _ (prefix_refl C2)).
+  destruct (prefix_comparable _ _ _ P1 P2) as [P|P]; rewrite (subset_prefix _ _ P);
+    cbn [andb orb]; rewrite ?orb_true_r; reflexivity.
+Qed.
